@@ -175,7 +175,11 @@ func H_C12_string() {
 		maxN = 4
 	}
 	n := vrtChoose("n", maxN+1)
-	s := vrtStrN("s", n, smUTF8)
+	mode := smUTF8
+	if vrtTier() == 0 && n == 3 {
+		mode = smUTF8 | (5 << 2) // quick: three code points only in the 1- and 3-byte classes
+	}
+	s := vrtStrN("s", n, mode)
 	k := vrtChoose("pattern", len(c12Patterns))
 	expr, start, stop, step, hasStart, hasStop := c12Template(k)
 	got, err := Search(expr, s)
